@@ -151,6 +151,42 @@ class C03(StructBase):
     def witnesses(self):
         return [("D1", W.D1), ("D2", W.D2), ("D3", W.D3), ("D4", W.D4)]
 
+    def extra_violations(self, stats):
+        """LINKS (and law sets) filed as members of a universe — "a universe may hold any BaseObject": the frame of
+        `unlink` (with and without destroy), of end assignments and of `unlink_from`: membership of the links involved is
+        not theirs to touch"""
+        from engine import Violation
+        from edgegraph.structure import Vertex, DirectedEdge, UnDirectedEdge
+        from edgegraph.builder import explicit
+        out, n = [], 0
+        for destroy in (True, False):
+            for cls in (DirectedEdge, UnDirectedEdge):
+                a, b, c = Vertex(), Vertex(), Vertex()
+                u, w = Universe(vertices=[a, b, c]), Universe()
+                e1, e2, e3 = cls(a, b), cls(b, a), cls(a, c)
+                for e in (e1, e2, e3):
+                    u.add_vertex(e)
+                w.add_vertex(e1)
+                before = ([id(x) for x in u.vertices], [id(x) for x in w.vertices], [[id(x) for x in e.universes] for e in (e1, e2, e3)])
+                steps = [("unlink(a, b, destroy=%s)" % destroy, lambda: explicit.unlink(a, b, destroy=destroy)),
+                         ("e3.v2 = b", lambda: setattr(e3, "v2", b)), ("e3.unlink_from(a)", lambda: e3.unlink_from(a))]
+                done = []
+                for name, act in steps:
+                    act()
+                    done.append(name)
+                    n += 1
+                    after = ([id(x) for x in u.vertices], [id(x) for x in w.vertices], [[id(x) for x in e.universes] for e in (e1, e2, e3)])
+                    if after != before:
+                        out.append(Violation("oracle", "links filed as members of universes: after [%s] the members of a universe, or the universes a link "
+                                             "lists, changed (%s)" % ("; ".join(done), cls.__name__), ["sweep:links as universe members: " + "; ".join(done)]))
+                        break
+                if out:
+                    break
+            if out:
+                break
+        stats.extra["links_as_members_probe_steps"] = n
+        return out
+
     def pre(self, real, line):
         return snap(real)
 
